@@ -563,54 +563,61 @@ func (c *Context) Sqrt(d, x *Decimal) (Condition, error) {
 	// (or within its own error of) a half-way point, and it cannot tell an
 	// inexact root whose working digits happen to be zeros from an exact one.
 	// As the paper prescribes, decide by comparing squares with f, computed
-	// exactly: truncate approx to the requested precision, and step up to the
-	// next value if f lies above the square of the half-way point between the
-	// two (a tie goes to the even neighbour).
+	// exactly: truncate approx at the last digit the result can keep, and step
+	// up to the next value if f lies above the square of the half-way point
+	// between the two (a tie goes to the even neighbour).
 	nc.Precision = c.Precision
-	nc.Rounding = RoundDown
-	var r Decimal
-	res := nc.round(&r, &approx)
-	adjLo := int64(approx.Exponent) + approx.NumDigits() - 1 + e/2
-	adjHi := adjLo + 1
 	nc.Rounding = RoundHalfEven
-	if r.Form != Finite || res.Subnormal() || adjLo < int64(c.MinExponent) || adjHi > int64(c.MaxExponent) {
-		// The result is (or may be) outside the normal range: round approx
-		// once, directly to the subnormal exponent or to an overflow.
+	ndApprox := approx.NumDigits()
+	adjLo := int64(approx.Exponent) + ndApprox - 1 + e/2
+	if adjLo > int64(c.MaxExponent) {
+		// Overflow: the usual rounding reports it.
 		d.Set(&approx)
 		d.Exponent += int32(e / 2)
-		res = nc.round(d, d)
-		if d.Form == Finite {
-			// The discarded digits of approx can all be zero although the root
-			// is not exact: it is exact only if its square is the operand.
-			exact := BaseContext.WithPrecision(0)
-			exact.Traps = 0
-			var sq Decimal
-			exact.Mul(&sq, d, d)
-			if sq.Cmp(x) != 0 {
-				res |= Inexact | Rounded
-				if res.Subnormal() {
-					res |= Underflow
-				}
-			}
-		}
+		res := nc.round(d, d)
 		return nc.goError(res)
+	}
+	// q is the exponent, in the scaled space of f, of the last digit kept:
+	// Precision digits, or the subnormal exponent Etiny if the root is below
+	// the normal range.
+	q := int64(approx.Exponent) + ndApprox - int64(c.Precision)
+	var res Condition
+	if adjLo < int64(c.MinExponent) {
+		res |= Subnormal
+		q = int64(c.etiny()) - e/2
+	}
+	var r Decimal
+	r.Set(&approx)
+	if drop := q - int64(approx.Exponent); drop > 0 {
+		res |= Rounded
+		if drop > ndApprox {
+			r.Coeff.SetInt64(0)
+		} else {
+			var tmpE BigInt
+			r.Coeff.Quo(&r.Coeff, tableExp10(drop, &tmpE))
+		}
+		r.Exponent = int32(q)
 	}
 	exact := BaseContext.WithPrecision(0)
 	exact.Traps = 0
-	var ulp, mid, sq Decimal
-	ulp.SetFinite(1, r.Exponent)
+	var mid, sq Decimal
 	mid.SetFinite(5, r.Exponent-1)
 	exact.Add(&mid, &r, &mid)
 	exact.Mul(&sq, &mid, &mid)
 	if cmp := sq.Cmp(&f); cmp < 0 || (cmp == 0 && r.Coeff.Bit(0) == 1) {
-		exact.Add(&r, &r, &ulp)
+		r.Coeff.Add(&r.Coeff, bigOne)
 	}
 	// The root is exact if and only if its square is f.
 	exact.Mul(&sq, &r, &r)
-	if sq.Cmp(&f) == 0 {
-		res &^= Inexact
-	} else {
+	if sq.Cmp(&f) != 0 {
 		res |= Inexact | Rounded
+		if res.Subnormal() {
+			res |= Underflow
+		}
+	}
+	if r.IsZero() {
+		// A subnormal root that rounds to zero.
+		res |= Clamped
 	}
 
 	d.Set(&r)
